@@ -190,7 +190,10 @@ func TestExplore(t *testing.T) {
 		st.Edges += ne
 	}
 	rng := rand.New(rand.NewSource(seed))
-	for _, s := range []*Sys{all[4], all[5], all[1], all[3]} {
+	NoAlt = true
+	chainSys := systems()
+	NoAlt = false
+	for _, s := range []*Sys{chainSys[4], chainSys[5], chainSys[1], chainSys[3]} {
 		evs := s.Events()
 		for c := 0; c < nchains; c++ {
 			var seqv []core.Event
